@@ -32,3 +32,20 @@ Theorem C07_set_stores_value :
   forall e t id r e' v, eval_action e (EAction t (EIdent id) r) = Some e' -> ty t = SET -> eval_upd e r = EVal v ->
     lookup (resolve e (lit id)) (store e') = Some (copy_obj v).
 Proof. exact set_stores_value. Qed.
+
+(* ... and for "plain" values - any nesting of strings, binaries, booleans, NULL, lists, maps, canonically written
+   numbers, sorted string sets, duplicate-free binary sets - passing through the evaluator is the identity, so such an
+   attribute keeps EXACTLY its prior value (a non-canonical numeral such as "2.50" is re-rendered: known finding C12-1) *)
+From Minidyn Require Import Proofs.PassThrough.
+
+Theorem C07_plain_values_pass_through_unchanged : forall v, plain v = true -> pass_through v = Some v.
+Proof. exact plain_pass_through. Qed.
+
+Theorem C07_untargeted_plain_attribute_kept_exactly :
+  forall expr it vals names it' tok acts k v,
+    wf it -> lang_update expr it vals names = Ok it' ->
+    parse_upd expr = Some (EUpdate tok (Some acts), 0) ->
+    mem k vals = false ->
+    (forall a, In a acts -> action_target names a <> Some k) ->
+    lookup k it = Some v -> plain v = true -> lookup k it' = Some v.
+Proof. exact plain_attribute_kept. Qed.
